@@ -181,7 +181,7 @@ REG.contract('BatchProcessing.run', world=BPW,
              ensures=_bp_ens, result='tuple:dict:Task->ref:Machine,enum:WorkflowStatus,set:Task',
              raises={'RuntimeError': dict(when=None, unchanged=False), 'KeyError': dict(when=None, unchanged=False),
                      'IndexError': dict(when=None, unchanged=False)},
-             modifies=BP_MOD, props=['C03', 'C09', 'C01', 'C04'])
+             modifies=BP_MOD, props=['C03', 'C09', 'C01', 'C04', 'C10'])
 REG.loop('BatchProcessing.run', 0, inv=lambda c: [('pool-tasks-are-objects', Q([('t', I)], lambda t: z3.Implies(c.n.task_pool.count(t) > 0, t > 0)))],
          modifies_locals=['task'], modifies=['task_pool'], props=['C03'])
 REG.loop('BatchProcessing.run', 1, inv=_bp_loop1_inv,
@@ -204,7 +204,7 @@ def _common_req(c):
 
 REG.contract('QueueProcessing.run', world=QPW, params=COMMON_PARAMS, requires=_common_req, ensures=_bp_ens,
              result='tuple:dict:Task->ref:Machine,enum:WorkflowStatus,set:Task',
-             modifies=BP_MOD, props=['C03', 'C01', 'C04'])
+             modifies=BP_MOD, props=['C03', 'C01', 'C04', 'C10'])
 REG.loop('QueueProcessing.run', 0, inv=lambda c: [('pool-tasks-are-objects', Q([('t', I)], lambda t: z3.Implies(c.n.task_pool.count(t) > 0, t > 0)))],
          modifies_locals=['task'], modifies=['task_pool'], props=['C03'])
 REG.loop('QueueProcessing.run', 1, inv=_bp_loop1_inv,
@@ -246,7 +246,7 @@ REG.contract('DynamicSchedulingFromPlan.run', world=DPW, params=COMMON_PARAMS,
                  z3.Select(c.o.cluster.machine_ids.keys, k), z3.Select(c.o.cluster.machine_ids.vals, k) > 0)))],
              ensures=_dp_ens, result='tuple:dict:Task->ref:Machine,enum:WorkflowStatus,set:Task',
              raises={'KeyError': dict(when=None, unchanged=False)},
-             modifies=['heap:WorkflowPlan.status', 'arg:task_pool', 'self.accurate', 'self.alternate'], props=['C17', 'C03', 'C01', 'C04'])
+             modifies=['heap:WorkflowPlan.status', 'arg:task_pool', 'self.accurate', 'self.alternate'], props=['C17', 'C03', 'C01', 'C04', 'C10'])
 REG.loop('DynamicSchedulingFromPlan.run', 0, inv=lambda c: [('pool-tasks-are-objects', Q([('t', I)], lambda t: z3.Implies(c.n.task_pool.count(t) > 0, t > 0)))],
          modifies_locals=['task'], modifies=['task_pool'], props=['C03'])
 REG.loop('DynamicSchedulingFromPlan.run', 1, inv=_dp_loop1_inv,
